@@ -6,7 +6,8 @@ class Prop(WalletProp):
     id = "C06"
     theorems = ["C06_bip_section_spec", "C06_rows_count", "C06_row_shape", "C06_account_path", "C06_account_version_slip132", "C06_generate_layout"]
     rule = ("Gen: PaperWallet.generate(account, (lo, hi)) on wallets from random seeds (16/32/64 bytes) and from mnemonics with passphrases, both "
-            "networks, accounts 0, 1, 66, 2^31-1, random; intervals empty, reversed, single-row, offset near 2^31, ordinary; every section checked "
+            "networks, accounts 0, 1, 66, 2^31-1, random; intervals empty, reversed, single-row, offset near 2^31, ordinary, and requests preceded by "
+            "other (out-of-order, overlapping) requests on the same wallet object; every section checked "
             "in Coq against Spec.derive_prv with the executable curve: account path/keys under the SLIP-132 version of (purpose, network), one row per "
             "index in order, WIF decodes to the key at the stated path, SEC = its compressed point, address = its P2PKH / P2SH-P2WPKH / P2WPKH; "
             "MASTER echo; JSON text parsed back; Was: Wasabi export. Non-trivial = distinct (case, output).")
@@ -28,6 +29,9 @@ class Prop(WalletProp):
         # literal-directed: account numbers equal to the purpose numbers that appear in the source (44, 49, 84)
         for j, acct in enumerate([44, 49, 84] if T else [44, 49]):
             cases.append({"kind": "Gen", "w": self.rand_wspec(rng, j % 2 == 1), "account": acct, "lo": 0, "hi": 1})
+        # the same wallet object asked before for other intervals of the same account (out of order, overlapping): the answer must not depend on it
+        cases.append({"kind": "Gen", "w": self.rand_wspec(rng, False), "account": 0, "lo": 0, "hi": 4, "pre": [(0, 2, 4), (0, 0, 2)]})
+        cases.append({"kind": "Gen", "w": self.rand_wspec(rng, True), "account": 2, "lo": 1, "hi": 4, "pre": [(2, 0, 2), (2, 1, 3), (1, 0, 3)]})
         for testnet in (False, True):
             cases.append({"kind": "Was", "w": self.rand_wspec(rng, testnet)})
         return cases
